@@ -2,6 +2,7 @@
   Props/C07.lean — C07: every scheduled task has start ≤ end and summary tasks roll up their children.
 -/
 import PjVerif.Lemmas.SchedC07
+import PjVerif.Lemmas.PassSrc
 namespace Pj
 
 /-- forward: summary start/end/estimate/spent are the roll-ups of the children whatever the user had put there;
@@ -37,5 +38,23 @@ theorem C07_wbs_start_end_backward (env : Env) (f0 : Uid → Fields) (res0 : Lis
     minOpt (env.roots.filterMap (fun r => (o.f r).start)) = minOpt ((memberList env).filterMap (fun t => (o.f t).start)) ∧
     maxOpt (env.roots.filterMap (fun r => (o.f r).end_)) = maxOpt ((memberList env).filterMap (fun t => (o.f t).end_)) :=
   backwardCalc_wbs_start_end env f0 res0 o hf h hms
+
+/-! ### the tie of the recursive forward pass to the current source, by translation
+
+`tools/extract_pass.py` translates `ForwardScheduler.__forward_pass` (schedule.py) into a PyLite term on every run
+(Extracted/PassSrc.lean); a third evaluator of PyLite runs it on an object store: task attributes as mutable slots, the
+`calculated` list, the resource table with `setdefault`, the scripted clock, the ledger, recursion with fuel; the two calls
+of the inner-loop methods run the translated source of 12.6b.  The theorem: interpreting the translated method on the
+encoding of a model state is the encoding of the model's `fwdPass` - unless the model run ends in RecursionError (fuel
+exhausted or a task met again while in progress: a check Python does not have; excluded for real inputs by C14).  `ms` is
+the tasks' own milestone flag; `hms` says the model's flag is the effective one (flagged and childless). -/
+
+theorem C07_source_forward_pass (env : Env) (ms : Uid → Bool) (wfuel : Nat)
+    (hms : ∀ u, (env.info u).milestone = (ms u && (env.info u).children.isEmpty))
+    (hw : Extracted.fwdShiftMaxSteps < wfuel) (fuel fuel' : Nat) (hle : fuel ≤ fuel') (stk : List Uid) (σ : SS)
+    (t : Uid) (minDate : Time) (hne : fwdPass env fuel stk σ t minDate ≠ .error (.crash .recursion)) :
+    PassSrc.interpFwdPass env wfuel (PassSrc.calRef σ.res) fuel' (PassSrc.encS env ms σ) t minDate =
+      (fwdPass env fuel stk σ t minDate).map (PassSrc.encS env ms) :=
+  PassSrc.interpFwdPass_eq env ms wfuel hms hw fuel fuel' hle stk σ t minDate hne
 
 end Pj
